@@ -172,7 +172,10 @@ def statements_lock_check(prop):
                 h, f = line.split()
                 want[f] = h
     bad = []
-    for f in (f"coq/theories/Properties/{prop}.v", f"coq/pins/{prop}.v", f"coq/pins/{prop}.golden"):
+    files = [f"coq/theories/Properties/{prop}.v", f"coq/pins/{prop}.v", f"coq/pins/{prop}.golden"]
+    if os.path.exists(os.path.join(VERIF, f"coq/theories/Properties/{prop}v.v")):
+        files.append(f"coq/theories/Properties/{prop}v.v")
+    for f in files:
         p = os.path.join(VERIF, f)
         h = hashlib.sha256(open(p, "rb").read()).hexdigest()
         if want.get(f) != h:
